@@ -61,7 +61,9 @@ FIELDS = {
     "A": (False, "1...2", 1, 2),
     "B": (True, "...1", 0, 1),
     "C": (False, "", 0, 10 ** 9),
+    "D": (False, "1, 3", 1, 3),  # a length made of several items: 2 lies between the outer limits but is not declared
 }
+LENGTH_GAPS = {"D": (2,)}
 
 
 def make_cid_text(fkeys, ncheck, fmt, allowed):
@@ -72,7 +74,7 @@ def make_cid_text(fkeys, ncheck, fmt, allowed):
         empty, length, _, _ = FIELDS[k]
         if fmt == "fixed":
             length = "2"
-        lines.append("f,f%d,,%s,%s,Rec," % (i, "X" if empty else "", length))
+        lines.append("f,f%d,,%s,%s,Rec," % (i, "X" if empty else "", '"%s"' % length if "," in length else length))
     for k in range(ncheck):
         lines.append("c,%s,Rec,whatever" % CHECK_NAMES[k])
     return "\n".join(lines) + "\n"
@@ -105,6 +107,9 @@ def predict_cell(k, cell, fmt, allowed):
         return ("empty", None) if empty else ("reject", None)
     if not (lo <= len(cell) <= hi):
         return "reject", None
+    for gap in LENGTH_GAPS.get(k, ()):
+        if len(cell) == gap:
+            return "reject", None
     return "hook", cell
 
 
@@ -370,6 +375,8 @@ def build(tier, seed):
         (("A", "B"), 1, 2, "delimited", None, None, "continue", 1, [1, 3]),
         (("C",), 2, 3, "delimited", None, None, "yield", 1, None),
         (("A",), 2, 2, "delimited", None, None, "reader-twice", 1, None),
+        (("A",), 1, 3, "delimited", None, None, "continue", 1, None),
+        (("D", "B"), 1, 2, "delimited", None, None, "yield", 1, None),
     ]
     if tier == "thorough":
         conf += [
